@@ -117,6 +117,56 @@ def canon_member(fn, node=None):
     return clone.canon(node or fn.body, fn, subst=TYPE_SUBST, ren=ren)
 
 
+def _copies_all_but_last(f, call):
+    """the call runs in exactly the iterations 0 .. T-2 of its loop (T the trip count): the conditions it is under, as affine forms of the
+    iteration number through the loop summary, are evaluated for T = 1..5 and every iteration. `if (n == 1) move else copy` with n
+    counting down, `if (k + 1 < count) copy` with k counting up and `if (k != count - 1)` are the same table."""
+    from .. import loops as LP
+    L = LP.enclosing_loop(call)
+    if L is None:
+        return False
+    lp = LP.Loop(f, L)
+    t = lp.trip()
+    conds = tables.path_conds(call, stop=L)
+    if t is None or not conds:
+        return False
+    forms = []
+    for c, pol in conds:
+        c0 = _strip_casts(c)
+        while c0 is not None and c0.k == 'ParenExpr':
+            c0 = _strip_casts(c0.c[0])
+        if c0 is None or c0.k != 'BinaryOperator' or c0.op not in ('==', '!=', '<', '>', '<=', '>='):
+            return False
+        a, b = lp.lin(c0.child('lhs'), c0), lp.lin(c0.child('rhs'), c0)
+        if a is None or b is None:
+            return False
+        forms.append((a, b, c0.op, pol))
+    syms = {k for a, b, _, _ in forms for d in (a, b) for k in d if k not in (1, LP.K)} | {k for k in t if k != 1}
+    if len(syms) != 1:
+        return False
+    sym = next(iter(syms))
+    import operator as O
+    ops = {'==': O.eq, '!=': O.ne, '<': O.lt, '>': O.gt, '<=': O.le, '>=': O.ge}
+
+    def val(d, n, k):
+        return sum(v * (1 if x == 1 else (k if x == LP.K else n)) for x, v in d.items())
+    for n in range(1, 8):
+        T = val(t, n, 0)
+        if T < 1:
+            continue
+        for k in range(T):
+            runs = all(ops[op](val(a, n, k), val(b, n, k)) == pol for a, b, op, pol in forms)
+            if runs != (k < T - 1):
+                return False
+    return True
+
+
+# the four Reference::get_* are textual siblings; one of them tidied on its own (benign X6-1: cursors replaced by indices in get_labels
+# only) differs in spelling. Each member is decided on its own by the absolute obligations below (cell-only, same depth, placement,
+# repetition mapped, copy for all but the last offset, one output per element and offset): the comparison of spellings is evidence only.
+ADVISORY = [('R-CLONE', r'^Reference::get_\*/')]
+
+
 def check_reference_collectors(ctx, db):
     members = []
     for e in ELEMS:
@@ -147,8 +197,37 @@ def check_reference_collectors(ctx, db):
                   'outputs keep their attached repetition untransformed: with apply_repetitions == false the copies land where the untransformed lattice points (no `dst->repetition.transform(magnification, x_reflection, rotation)`)')
         # one output per (element, offset): copy for all but the last offset
         cp = [c for c in f.calls() if (c.callee or '').endswith('::copy_from')]
-        ok = len(cp) == 1 and any(a.k == 'IfStmt' and a.child('cond').k == 'BinaryOperator' and a.child('cond').op == '==' and a.child('cond').child('rhs').cv == 1 and any(x is cp[0] for x in a.child('else').walk()) for a in cp[0].ancestors() if a.child('else') is not None)
+        ok = len(cp) == 1 and _copies_all_but_last(f, cp[0])
         ctx.check(ok, 'R-SHAPE', key + '/copy-per-offset', f.loc(), 'a fresh copy is made for every offset except the last, which moves the collected element')
+        # every (element, offset) pair gives one output: the outer loop runs over all collected elements, the inner one over all offsets,
+        # iteration k places at offsets[k], and the output is appended unconditionally in the inner loop (affine loop summaries)
+        from .. import loops as LP
+        apps = [c for c in f.calls() if (c.callee or '').split('::')[-1] in ('append', 'append_unsafe') and c.child('obj') is not None and (lvalue_key(_strip_casts(c.child('obj'))) or '').endswith(':result')]
+        ok = len(apps) == 1 and len(tr) == 1
+        why = 'one append and one placement call expected'
+        if ok:
+            inner = LP.enclosing_loop(apps[0])
+            outer = LP.enclosing_loop(inner) if inner is not None else None
+            ok = inner is not None and outer is not None
+            if ok:
+                li, lo = LP.Loop(f, inner), LP.Loop(f, outer)
+                ti, to = li.trip(), lo.trip()
+                clean = lambda d_: {k_: v_ for k_, v_ in (d_ or {}).items() if v_ != 0}
+                okt = ti is not None and to is not None and len(clean(ti)) == 1 and len(clean(to)) == 1 and list(clean(ti))[0].endswith(':offsets.count') and list(clean(to))[0].endswith(':array.count') \
+                    and list(clean(ti).values()) == [1] and list(clean(to).values()) == [1]
+                unc = LP.unconditional_in(apps[0], inner) and not tables.path_conds(apps[0], stop=inner)
+                # the offset handed to transform: origin + (element k of offsets)
+                off = None
+                a3 = tr[0].args[3]
+                for x in a3.walk():
+                    if (x.k == 'UnaryOperator' and x.op == '*') or x.k == 'ArraySubscriptExpr' or (x.k == 'CXXOperatorCallExpr' and x.op == '[]'):
+                        ad = li.addr(x)
+                        if ad and any(str(k_).endswith(':offsets.items') for k_ in ad):
+                            off = ad
+                oko = off is not None and off.get(LP.K) == 1 and not {k_: v_ for k_, v_ in off.items() if k_ not in (LP.K,) and not str(k_).endswith(':offsets.items') and v_ != 0}
+                ok = okt and unc and oko
+                why = 'inner loop trip %s, outer loop trip %s, append unconditional: %s, offset address %s' % (ti, to, unc, off)
+        ctx.check(ok, 'R-AGG', key + '/one-output-per-element-and-offset', f.loc(), 'array.count x offsets.count outputs: iteration (i, k) places the element at origin + offsets[k] and appends it', why)
 
 
 def check_cell_collectors(ctx, db):
@@ -243,7 +322,9 @@ def check_flatten(ctx, db):
     def cell_only(node):
         at = tables.path_atoms_with_guards(node, stop=loop)
         tag = [a for a in at if a[0] == 'eq' and a[1].endswith('->type')]
-        return bool(tag) and all(a[2] == cellv and a[3] is True for a in tag) and all(a[0] == 'eq' and a[1].endswith('->type') for a in at)
+        # (the loop's own exit test written as a guard clause, `if (i >= reference_array.count) break;`, is not a condition on the reference)
+        rest = [a for a in at if not (a[0] == 'eq' and a[1].endswith('->type')) and not (a[0] == 'other' and 'reference_array.count' in a[1])]
+        return bool(tag) and all(a[2] == cellv and a[3] is True for a in tag) and not rest
     cols = [c for c in loop.walk() if c.k == 'CXXMemberCallExpr' and (c.callee or '').startswith('gdstk::Reference::get_')]
     rem = [c for c in loop.walk() if c.k == 'CXXMemberCallExpr' and (c.callee or '').endswith('::remove_unordered')]
     ok = bool(cols) and all(cell_only(c) for c in cols) and all(cell_only(c) for c in rem)
@@ -261,7 +342,8 @@ def check_flatten(ctx, db):
     ctx.check(okd, 'R-SHAPE', 'Cell::flatten/full-depth', f.loc(), 'collectors are called with depth -1 (unbounded)')
     ctx.check(okdest, 'R-SHAPE', 'Cell::flatten/into-own-arrays', f.loc(), 'each collector appends to the matching element array of the cell itself')
     # index advance: every `++` of an integer local inside the loop runs exactly where the reference is NOT a Cell
-    incs = [u for u in loop.walk() if u.k == 'UnaryOperator' and u.op in ('++', 'post++') and _strip_casts(u.child('sub')).k == 'DeclRefExpr' and '*' not in (_strip_casts(u.child('sub')).t or '')]
+    incs = [u for u in loop.walk() if (u.k == 'UnaryOperator' and u.op in ('++', 'post++') and _strip_casts(u.child('sub')).k == 'DeclRefExpr' and '*' not in (_strip_casts(u.child('sub')).t or ''))
+            or (u.k == 'CompoundAssignOperator' and u.op == '+=' and _strip_casts(u.child('lhs')).k == 'DeclRefExpr' and '*' not in (_strip_casts(u.child('lhs')).t or '') and _strip_casts(u.child('rhs')).cv == 1)]
     def not_cell(node):
         at = tables.path_atoms_with_guards(node, stop=loop)
         tag = [a for a in at if a[0] == 'eq' and a[1].endswith('->type')]
@@ -273,6 +355,9 @@ def run(ctx):
     db = ctx.db
     ctx.attempt(check_copies, ctx, db)
     ctx.attempt(check_reference_collectors, ctx, db)
+    from . import C11   # every element a Reference::get_* hands on has its own repetition mapped by the reference, on every path
+    ctx.attempt(C11.check_reference_maps_repetitions, ctx, db)
+    ctx.attempt(C11.check_apply_repetition, ctx, db)     # flatten / get_*(apply_repetitions) expand through apply_repetition: the copies carry no repetition, the original keeps none
     ctx.attempt(check_cell_collectors, ctx, db)
     ctx.attempt(check_flatten, ctx, db)
     # a repetition kept attached under a reference is mapped by the placement's linear part: exact identities (C11's obligation, shared)
@@ -280,6 +365,7 @@ def run(ctx):
     ctx.attempt(C11.check_transform_algebra, ctx, db)
     ctx.attempt(C10.check_signs, ctx, db)
     ctx.attempt(C10.check_affine_algebra, ctx, db)# the point maps the collectors apply are exactly the documented affine maps
+    ctx.attempt(C10.check_placement, ctx, db)     # references and labels met on the way down compose their placement as T o P (interpreted for the four reflection combinations)
     ctx.attempt(C10.check_element_maps, ctx, db)# element transforms of polygons and paths (points, widths, offsets, lengths) by generic-element execution
 
 
